@@ -72,12 +72,27 @@ def ed_cases(tier, seed):
         yield {"deltas": [[x, y]], "tensors": [[x], [y]], "targets": [y]}
         yield {"deltas": [[x, y]], "tensors": [[x], [y]], "targets": [x]}
         yield {"deltas": [[x, y]], "tensors": [[x, y]], "targets": None}
+    # chains target - x - y: the target index sits only on a delta, x on that
+    # delta, on a second delta and on a tensor (targets from the summation
+    # convention and explicit)
+    triples = list(itertools.permutations(range(len(POOL)), 3))
+    rng.shuffle(triples)
+    for t, x, y in triples[:150 if tier == "quick" else 1320]:
+        tensors = rng.choice([[[x], [y]], [[x, y]], [[x], [x], [y]], [[x], [y], [y]]])
+        for targets in (None, [t]):
+            yield {"deltas": [[t, x], [x, y]], "tensors": tensors, "targets": targets}
+            yield {"deltas": [[x, y], [t, x]], "tensors": tensors, "targets": targets}
     for _ in range(n):
         nd = rng.randint(1, 3)
         deltas = [rng.sample(range(len(POOL)), 2) for _ in range(nd)]
         used = sorted({x for d in deltas for x in d})
         tensors = []
-        # every index occurs on at least one non-delta object (precondition)
+        # every CONTRACTED index occurs on at least one non-delta object
+        # (precondition); an index that occurs only once may stay on its delta
+        once = [x for x in used if sum(d.count(x) for d in deltas) == 1]
+        for x in once:
+            if rng.random() < 0.3:
+                used.remove(x)
         rng.shuffle(used)
         while used:
             take = rng.randint(1, min(2, len(used)))
@@ -90,6 +105,9 @@ def ed_cases(tier, seed):
             targets = None
         else:
             targets = rng.sample(allidx, rng.randint(0, min(3, len(allidx))))
+            # indices that sit only on a delta are target indices
+            on_tensor = {x for t in tensors for x in t}
+            targets = sorted(set(targets) | {x for x in allidx if x not in on_tensor})
         yield {"deltas": deltas, "tensors": tensors, "targets": targets}
 
 
